@@ -125,6 +125,20 @@ def trainings(tier, rng):
     for name, pws in TRAIN_LISTS.items():
         for ngram in ((2, 3) if tier == 'quick' else (2, 3, 4, 5)):
             combos.append((name, pws, ngram, rng.choice([10, 100]), rng.choice([0.25, 0.6])))
+    # skewed Markov sources: one very common and one rare continuation after the same context, so that the
+    # transition levels available in a context are NOT contiguous (e.g. {0, 2}) and backtracking must jump the gap
+    for k in range(3 if tier == 'quick' else 40):
+        alpha = rng.choice(['abc', 'abc', 'abcd', 'ab1'])
+        w = {a: sorted((rng.choice([0.9, 0.08, 0.02, 0.3]) for _ in alpha), reverse=bool(rng.getrandbits(1))) for a in alpha}
+        pws = []
+        for _ in range(rng.randint(60, 120)):
+            cur = rng.choice(alpha[:2])
+            out = cur
+            for _ in range(rng.randint(1, 4)):
+                cur = rng.choices(alpha, weights=w[cur])[0]
+                out += cur
+            pws.append(out)
+        combos.append(('skewed%d' % k, pws, rng.choice([2, 2, 3]), rng.choice([10, 100]), 0.6))
     if tier == 'thorough':
         for k in range(30):
             alpha = rng.choice(['ab', 'abc', 'abcd1', 'xyz12'])
